@@ -136,7 +136,7 @@ def run_check(pid, tier, mod=None, extra_stages=(), extra_cov=None):
     # cheap obligations first: under the tier's time budget breadth comes before depth
     obs.sort(key=lambda o: o.cost)
     sample_paths = 2 if tier == 'quick' else 4
-    budget = float(os.environ.get('VERIF_BUDGET_S', 900 if tier == 'quick' else 2400))
+    budget = float(os.environ.get('VERIF_BUDGET_S', 900 if tier == 'quick' else 1500))
     DEADLINE[0] = t0 + budget
     ctx = multiprocessing.get_context('fork')
     results = []
